@@ -167,6 +167,7 @@ fn build(c: &Case, with_conditionals: bool) -> (EntitySpec, ReqSpec) {
         headers: vec![("content-type".into(), Bs::s("text/plain"))],
         plan: vec![PStep::Chunk(16)],
         faults: vec![],
+        tail: vec![],
     };
     let mut req = ReqSpec::get().method(&c.method);
     if with_conditionals {
